@@ -1023,7 +1023,7 @@ typedef struct { int viol; char key[160]; char what[320]; long idx; } bfind_t;
 typedef struct {
     volatile long cur;
     volatile int done;
-    long n_ok, n_err, n_na, n_skip;
+    long n_ok, n_err, n_na, n_skip, n_viol;
     uint64_t rch;
     int nfind;
     long find_dropped;
@@ -1214,7 +1214,20 @@ static void child_run(const entry_t *E, int si, long lo, long hi, int verbose)
         bsh->rch = fnv1a(&rc, sizeof(rc), bsh->rch ? bsh->rch : FNV0);
         if (r > 0)
         {
-            if (bsh->nfind < BMAXFIND) bsh->find[bsh->nfind++] = f; else bsh->find_dropped++;
+            /* keep the first case of every distinct key of this batch (a parser that leaks on every input must not crowd out other keys) */
+            int k;
+            bsh->n_viol++;
+            for (k = 0; k < bsh->nfind; k++)
+            {
+                if (!strcmp(bsh->find[k].key, f.key))
+                {
+                    break;
+                }
+            }
+            if (k == bsh->nfind)
+            {
+                if (bsh->nfind < BMAXFIND) bsh->find[bsh->nfind++] = f; else bsh->find_dropped++;
+            }
         }
     }
     arm_timer(0);
@@ -1410,7 +1423,7 @@ static void classify_crash(int st, char *kind, size_t kn, char *site, size_t sn,
 }
 
 /* ------------------------------------------------------------ statistics */
-typedef struct { long cases, ok, err, na, crashes, skipped_flood, usec; } estat_t;
+typedef struct { long cases, ok, err, na, crashes, skipped_flood, usec, viol; } estat_t;
 static estat_t *estats; /* shared, [NENT] */
 
 typedef struct { int e, s; long lo, hi; double cost; } grp_t;
@@ -1618,7 +1631,7 @@ static void run_group(long gi, void *unused)
     {
         long bsz = g->s == RAW_SEED ? 20 * BATCH : BATCH; /* raw strings are rejected in microseconds: larger batches */
         long hi = lo + bsz < g->hi ? lo + bsz : g->hi, pos = lo;
-        long b_ok = 0, b_err = 0, b_na = 0, b_crash = 0, b_skip = 0;
+        long b_ok = 0, b_err = 0, b_na = 0, b_crash = 0, b_skip = 0, b_viol = 0;
         uint64_t rch = FNV0;
         mx_result_t r;
         double t0 = now_s();
@@ -1631,7 +1644,7 @@ static void run_group(long gi, void *unused)
             int st, i;
             memset((void *) bsh, 0, sizeof(*bsh));
             st = fork_range(E, g->s, pos, hi, 0);
-            b_ok += bsh->n_ok; b_err += bsh->n_err; b_na += bsh->n_na; b_skip += bsh->n_skip;
+            b_ok += bsh->n_ok; b_err += bsh->n_err; b_na += bsh->n_na; b_skip += bsh->n_skip; b_viol += bsh->n_viol;
             rch = fnv1a((void *) &bsh->rch, sizeof(bsh->rch), rch);
             for (i = 0; i < bsh->nfind; i++)
             {
@@ -1686,6 +1699,7 @@ static void run_group(long gi, void *unused)
         __atomic_fetch_add(&es->na, b_na, __ATOMIC_RELAXED);
         __atomic_fetch_add(&es->crashes, b_crash, __ATOMIC_RELAXED);
         __atomic_fetch_add(&es->skipped_flood, b_skip, __ATOMIC_RELAXED);
+        __atomic_fetch_add(&es->viol, b_viol + b_crash, __ATOMIC_RELAXED);
         __atomic_fetch_add(&es->usec, (long) ((now_s() - t0) * 1e6), __ATOMIC_RELAXED);
         memset(&r, 0, sizeof(r));
         snprintf(r.desc, sizeof(r.desc), "e=%s;s=%s;i=%ld-%ld (batch)", E->name, seed_name(g->s), lo, hi - 1);
@@ -2012,8 +2026,8 @@ int main(int argc, char **argv)
             {
                 continue;
             }
-            o += (size_t) snprintf(extra + o, sizeof(extra) - o, "%s\"%s\": {\"cases\": %ld, \"accepted\": %ld, \"rejected\": %ld, \"not_applicable\": %ld, \"crashes\": %ld, \"skipped_flood\": %ld, \"cpu_s\": %.1f}",
-                first ? "" : ", ", entries[e].name, es->cases, es->ok, es->err, es->na, es->crashes, es->skipped_flood, es->usec / 1e6);
+            o += (size_t) snprintf(extra + o, sizeof(extra) - o, "%s\"%s\": {\"cases\": %ld, \"accepted\": %ld, \"rejected\": %ld, \"not_applicable\": %ld, \"crashes\": %ld, \"violating_cases\": %ld, \"skipped_flood\": %ld, \"cpu_s\": %.1f}",
+                first ? "" : ", ", entries[e].name, es->cases, es->ok, es->err, es->na, es->crashes, es->viol, es->skipped_flood, es->usec / 1e6);
             first = 0;
             if (!mx_deadline_hit() && es->ok == 0 && es->crashes == 0 && (entries[e].classes & C_IDENT))
             {
